@@ -321,6 +321,9 @@ var fixedNow = time.Date(2024, 1, 3, 10, 0, 0, 0, time.UTC)
 type world struct {
 	t        *testing.T
 	dir      string
+	rng      *rand.Rand
+	digit    byte
+	naliens  int
 	bi       *debug.BuildInfo
 	meta     string
 	path     string
@@ -330,7 +333,9 @@ type world struct {
 }
 
 // buildInfoFor returns build info whose metadata block is exactly m bytes.
-func buildInfoFor(rng *rand.Rand, m int) (*debug.BuildInfo, string, bool) {
+// host is the first path element, digit the last character of the program's
+// base name (the only part of the path that goes into the file name).
+func buildInfoFor(rng *rand.Rand, m int, host string, digit byte) (*debug.BuildInfo, string, bool) {
 	vers := "v1.2.3"
 	goos, goarch := osArch()
 	base := len(rt.V1Meta(timeBegin, timeEnd, "", vers, goVers, goos, goarch))
@@ -338,8 +343,8 @@ func buildInfoFor(rng *rand.Rand, m int) (*debug.BuildInfo, string, bool) {
 	if pad < 8 {
 		return nil, "", false
 	}
-	// program path: "x.io/<pad>/p<k>"; only the last element goes into the file name
-	prog := []byte("x.io/")
+	// program path: "<host>/<pad>/p<k>"
+	prog := []byte(host + "/")
 	for len(prog) < pad-3 {
 		c := byte('a' + rng.Intn(26))
 		if rng.Intn(9) == 0 && len(prog) > 6 && prog[len(prog)-1] != '/' {
@@ -350,7 +355,7 @@ func buildInfoFor(rng *rand.Rand, m int) (*debug.BuildInfo, string, bool) {
 	if prog[len(prog)-1] == '/' {
 		prog[len(prog)-1] = 'z'
 	}
-	prog = append(prog, '/', 'p', byte('0'+rng.Intn(10)))
+	prog = append(prog, '/', 'p', digit)
 	bi := &debug.BuildInfo{GoVersion: goVers, Path: string(prog)}
 	bi.Main.Version = vers
 	meta := rt.V1Meta(timeBegin, timeEnd, string(prog), vers, goVers, goos, goarch)
@@ -358,7 +363,8 @@ func buildInfoFor(rng *rand.Rand, m int) (*debug.BuildInfo, string, bool) {
 }
 
 func newWorld(t *testing.T, rng *rand.Rand, m int) (*world, error) {
-	bi, meta, ok := buildInfoFor(rng, m)
+	digit := byte('0' + rng.Intn(10))
+	bi, meta, ok := buildInfoFor(rng, m, "x.io", digit)
 	if !ok {
 		return nil, fmt.Errorf("cannot build metadata of length %d", m)
 	}
@@ -371,7 +377,7 @@ func newWorld(t *testing.T, rng *rand.Rand, m int) (*world, error) {
 		return nil, err
 	}
 	counter.CounterTime = func() time.Time { return fixedNow }
-	return &world{t: t, dir: dir, bi: bi, meta: meta, lib: map[string]*counter.VFile{}, ctrs: map[string]map[string]*counter.Counter{}}, nil
+	return &world{t: t, dir: dir, rng: rng, digit: digit, bi: bi, meta: meta, lib: map[string]*counter.VFile{}, ctrs: map[string]map[string]*counter.Counter{}}, nil
 }
 
 func (w *world) findFile() string {
@@ -442,6 +448,27 @@ func (w *world) add(a string, name []byte, k int64) error {
 		w.ctrs[a][string(name)] = c
 	}
 	c.Add(k)
+	return nil
+}
+
+// alien is another program whose counter file has the same name (same base
+// name, version, toolchain, platform and date) but whose metadata differs
+// (another import path; m = length of its metadata block): it opens the file
+// and uses a counter twice.  Whether the open succeeds is not judged here;
+// what it does to the file is.
+func (w *world) alien(m int, name []byte) error {
+	bi, meta, ok := buildInfoFor(w.rng, m, "y.io", w.digit)
+	if !ok || meta == w.meta {
+		return fmt.Errorf("cannot build different metadata of length %d", m)
+	}
+	v := &counter.VFile{}
+	v.SetBuildInfo(bi)
+	v.Rotate1()
+	w.naliens++
+	w.lib[fmt.Sprintf("alien%d", w.naliens)] = v // closed with the others
+	c := v.New(string(name))
+	c.Add(1)
+	c.Add(1)
 	return nil
 }
 
@@ -708,6 +735,8 @@ func TestVerifC10Ops(t *testing.T) {
 				err = w.add(st.A, names[st.ID], st.K)
 			case "reopen":
 				err = w.reopen(st.A)
+			case "alien":
+				err = w.alien(st.M, names[st.ID])
 			}
 			steps++
 			if err != nil {
@@ -723,7 +752,7 @@ func TestVerifC10Ops(t *testing.T) {
 			ev := rt.M{"kind": "ev", "op": st.Op, "a": st.A, "k": st.K, "m": st.M, "run": 1000000 + bh.ID, "problems": len(f.Problems),
 				"name": rt.M{"id": 0, "nlen": 0, "b": 0},
 				"obs":  rt.M{"metaLen": got.MetaLen, "hdrLen": got.HdrLen, "size": got.Size, "limit": got.Limit, "heads": headsJSON(got), "recs": got.Recs}}
-			if st.Op == "add" {
+			if st.Op == "add" || st.Op == "alien" {
 				ev["name"] = rt.M{"id": st.ID, "nlen": len(names[st.ID]), "b": int(rt.V1Hash(string(names[st.ID])))}
 			}
 			rt.Out(ev)
@@ -789,13 +818,15 @@ func TestVerifC10Ops(t *testing.T) {
 		}
 		rids := map[string]int{}
 		var pool [][]byte
-		emit := func(op, a string, name []byte, k int64) bool {
+		var emitM func(op, a string, name []byte, k int64, em int) bool
+		emit := func(op, a string, name []byte, k int64) bool { return emitM(op, a, name, k, m) }
+		emitM = func(op, a string, name []byte, k int64, em int) bool {
 			obs, f, data, err := w.observe(rids)
 			if err != nil {
 				rt.Out(rt.M{"kind": "mismatch", "what": "read", "err": err.Error(), "random_run": run})
 				return false
 			}
-			ev := rt.M{"kind": "ev", "op": op, "a": a, "k": k, "m": m, "run": run,
+			ev := rt.M{"kind": "ev", "op": op, "a": a, "k": k, "m": em, "run": run,
 				"name": rt.M{"id": 0, "nlen": 0, "b": 0},
 				"obs":  rt.M{"metaLen": obs.MetaLen, "hdrLen": obs.HdrLen, "size": obs.Size, "limit": obs.Limit, "heads": headsJSON(obs), "recs": obs.Recs}}
 			if name != nil {
@@ -824,6 +855,24 @@ func TestVerifC10Ops(t *testing.T) {
 		}
 		actors := []string{"lib1", "lib1", "lib2", "ind"}
 		for i := 0; i < in.RandomLen; i++ {
+			if rng.Intn(9) == 0 { // a writer with other metadata (same or different length class) opens the file and counts
+				m2 := in.MetaLens[rng.Intn(len(in.MetaLens))]
+				if rng.Intn(3) == 0 {
+					m2 = m
+				}
+				nm := randName(rng, 1+rng.Intn(40))
+				if len(pool) > 0 && rng.Intn(2) == 0 {
+					nm = pool[rng.Intn(len(pool))]
+				}
+				if err := w.alien(m2, nm); err != nil {
+					rt.Out(rt.M{"kind": "mismatch", "what": "op-error", "op": "alien", "err": err.Error(), "random_run": run})
+					break
+				}
+				if !emitM("alien", "alien", nil, 1, m2) {
+					break
+				}
+				continue
+			}
 			if rng.Intn(12) == 0 {
 				a := actors[rng.Intn(3)]
 				if err := w.reopen(a); err != nil {
